@@ -3,8 +3,9 @@
    successive event loops included).  The theorems quantify over ALL runs of the model: any callers, any interleaving of loop
    callbacks, I/O, timer, OS-error, close() and new-loop events, any fault oracle. *)
 From Coq Require Import List Bool Arith.
-From GW Require Import Proto ProtoEvolves ProtoProps ProtoMutex ProtoAnswer ProtoTransport.
-Import ListNotations.
+From RecordUpdate Require Import RecordSet.
+From GW Require Import Proto ProtoEvolves ProtoProps ProtoMutex ProtoAnswer ProtoTransport Callbacks CallbackGen CallbackRefine.
+Import ListNotations RecordSetNotations.
 
 (* never more than one open socket / connection (open = created and not yet closing) *)
 Theorem C10_at_most_one_open_transport : forall es kd ka r s acts, run (init kd ka r) es = Some (s, acts) ->
@@ -49,6 +50,24 @@ Theorem C10_everything_closed_at_the_end :
   option_map (fun r => (open (fst r) 0, open (fst r) 1, s_transport (fst r))) (run (init UDP false 1) two_callers) = Some (false, false, None).
 Proof. exact transport_closed_example. Qed.
 
+(* the model's _close_transport and its connection callbacks ARE the current source (translated by tools/cb2v.py on this run) *)
+Theorem C10_close_transport_is_the_model : forall s l, execb cb_close_transport s l = (close_transport s, l, [], XNormal).
+Proof. exact close_transport_refined. Qed.
+
+Theorem C10_connection_made_is_the_model : forall s t l, l_transport l = t ->
+  run_cb s (CbConnMade t) =
+  runm (conn_made_prog (s_kind s)) (match tstate_of s t with TNew => s <| s_tr := set_nth t TUp (s_tr s) |> | _ => s end) l.
+Proof. exact connection_made_refined. Qed.
+
+Theorem C10_connection_lost_is_the_model : forall s t l, tstate_of s t = TClosing ->
+  run_cb s (CbConnLost t) = (fst (runm (conn_lost_prog (s_kind s)) (s <| s_tr := set_nth t TGone (s_tr s) |>) l), [AClose t]) /\
+  snd (runm (conn_lost_prog (s_kind s)) (s <| s_tr := set_nth t TGone (s_tr s) |>) l) = [].
+Proof. exact connection_lost_refined. Qed.
+
+Theorem C10_eof_received_is_the_model : forall s t l, tstate_of s t = TUp ->
+  run_cb s (CbRead t IoEof) = (tr_close (fst (runm tcp_eof_received s l)) t, []) /\ snd (runm tcp_eof_received s l) = [].
+Proof. exact eof_received_refined. Qed.
+
 Print Assumptions C10_at_most_one_open_transport.
 Print Assumptions C10_open_transport_is_referenced.
 Print Assumptions C10_nothing_open_after_request.
@@ -57,3 +76,7 @@ Print Assumptions C10_close_transport_forgets.
 Print Assumptions C10_nothing_referenced_after_request.
 Print Assumptions C10_transport_opens.
 Print Assumptions C10_everything_closed_at_the_end.
+Print Assumptions C10_close_transport_is_the_model.
+Print Assumptions C10_connection_made_is_the_model.
+Print Assumptions C10_connection_lost_is_the_model.
+Print Assumptions C10_eof_received_is_the_model.
